@@ -16,7 +16,7 @@ RULE = ("(a) pool of 10 classes chosen to collide (6/10/12/16-byte CDBs, inherit
         "mutable arguments); operations new(X, 2 argument variants), new-invalid(X), X.unmarshall_cdb, X.marshall_cdb, repeat-marshal with the same "
         "caller objects, del; BFS with de-duplication on a digest of class-level state + live objects, all pairs to depth 4 (thorough 5) and all "
         "triples to depth 3 (thorough 4); in every state every live object and every class's codec is compared with what the same call yields "
-        "alone. (b) 2 threads (thorough: also 3), each 'c=X(..); bytes(c.cdb); X.unmarshall_cdb; X.marshall_cdb; len(c.datain)', every ordered "
+        "alone; decode histories A,B,A over every ordered pair of 20 response kinds in a fresh process (result for A identical before and after B). (b) 2 threads (thorough: also 3), each 'c=X(..); bytes(c.cdb); X.unmarshall_cdb; X.marshall_cdb; len(c.datain)', every ordered "
         "pair of pool classes, plus decoder threads (standard INQUIRY, VPD 83h, MODE SENSE(10), REPORT LUNS, RTPG, READ FULL STATUS, READ ELEMENT STATUS, sense) in all ordered pairs, all schedules with at most 1 preemption at every traced source line of the library (thorough: 2 preemptions at "
         "call/line granularity outside converter.py); each schedule's per-thread observation must equal the solo observation; the first "
         "schedule of every pair is replayed twice and must be bit-identical. states = distinct canonical states (a), transitions = operations "
@@ -88,7 +88,8 @@ def partitions(tier):
     for a in POOL:
         for b in POOL:
             parts.append(["sched", [a, b]])
-    decs = list(DECODER_CASES)
+    parts += [["daba", n] for n in DECODER_CASES if DECODER_CASES[n] is not None]
+    decs = list(THREAD_DECODERS)
     dq = decs if tier != "quick" else ["dec:inquiry_std", "dec:vpd83", "dec:rtpg", "dec:sense", "dec:prfull"]
     for a in dq:
         for b in dq:
@@ -308,7 +309,21 @@ DECODER_CASES = {
     "dec:res": ["res", 0x10, 2, [[2, 1, 0, [{"element_address": 0x10, "full": 1, "access": 1, "primary_volume_tag": "hex:" + (b"VOL001").ljust(36, b" ").hex()},
                                             {"element_address": 0x11, "primary_volume_tag": "hex:" + (b"VOL002").ljust(36, b" ").hex()}]]], 0],
     "dec:sense": None,
+    "dec:res_mt": ["res", 1, 1, [[1, 0, 0, [{"element_address": 1, "full": 1}]]], 0],
+    "dec:res_ie": ["res", 0x20, 1, [[3, 0, 0, [{"element_address": 0x20, "oir": 1, "cmc": 1, "inenab": 1, "exenab": 1, "access": 1, "impexp": 1}]]], 0],
+    "dec:res_dt": ["res", 0x30, 1, [[4, 0, 1, [{"element_address": 0x30, "access": 1, "alternate_volume_tag": "hex:" + (b"ALT001").ljust(36, b" ").hex()}]]], 0],
+    "dec:discinfo0": ["discinfo", 0, {"disc_status": 2, "number_of_sessions": 0x102, "disc_type": 0x20}, 1, 0],
+    "dec:discinfo1": ["discinfo", 1, {"number_of_the_assigned_tracks": 3}, 0, 0],
+    "dec:discinfo2": ["discinfo", 2, {"remaining_pow_replacements": 9}, 0, 0],
+    "dec:vpdb0": ["vpd_fixed", 0xB0, {"max_xfer_len": 0x10000, "max_ws_len": 1 << 33, "ugavalid": 1}, 0, 0, 0],
+    "dec:vpd86": ["vpd_fixed", 0x86, {"spt": 3, "maximum_supported_sense_data_length": 0xFC}, 0, 0, 0],
+    "dec:mode6": ["mode6", 0x1D, None, {"first_storage_element_address": 0x400, "num_storage_elements": 24}, {"medium_type": 0, "device_specific_parameter": 0}, 0, 0, 0],
+    "dec:prkeys": ["prkeys", 3, [1, 2, 3], 0],
+    "dec:prcaps": ["prcaps", {"ptpl_c": 1, "tmv": 1, "allow_commands": 2}, {"wr_ex": 1, "ex_ac_ar": 1}, 0],
+    "dec:getlbastatus": ["getlbastatus", [{"lba": 5, "num_blocks": 8, "p_status": 1}], 0],
+    "dec:readcd": ["readcd", 4, 0x1F, 1, 2, 0x100, 2, 0],
 }
+THREAD_DECODERS = ["dec:inquiry_std", "dec:vpd83", "dec:mode10", "dec:reportluns", "dec:rtpg", "dec:prfull", "dec:res", "dec:sense"]
 
 
 def freeze(x):
@@ -405,6 +420,10 @@ def switch_points(x):
 
 
 def run_case(case):
+    if case[0] == "daba":
+        from vf.props import c04
+        return [("decode_history/" + k.split("/", 1)[1], w)
+                for k, w in c04.run_aba_star(DECODER_CASES[case[1]], [DECODER_CASES[n] for n in case[2]])]
     if case[0] == "hist":
         names, hist = case[1], [tuple(o) for o in case[2]]
         return run_history(names, hist)[0]
@@ -426,9 +445,27 @@ def replay(case):
     return run_case(case)
 
 
+MAXTASKS = 1      # fresh forked worker per partition (the decode histories need a process in which nothing was decoded yet)
+
+
 def run_partition(part, tier, seed):
     acc = Acc(seed)
     b = bounds(tier)
+    if part[0] == "daba":
+        # decode histories in a fresh process: A first (reference), then B, A, B', A, ... over all 20 response kinds:
+        # what A decodes to must not depend on anything decoded in between
+        from vf.props import c04
+        a = part[1]
+        others = [n for n in DECODER_CASES if DECODER_CASES[n] is not None and n != a]
+        case = ["daba", a, others]
+        acc.case(case, nontrivial=True, key=("daba", a))
+        v = c04.run_aba_star(DECODER_CASES[a], [DECODER_CASES[n] for n in others])
+        acc.transitions += 1 + 2 * len(others)
+        acc.traces += 1
+        for k, w in v:
+            acc.violation("decode_history/" + k.split("/", 1)[1], w, case)
+        acc.outcome((a, tuple(k for k, _ in v)))
+        return acc
     if part[0] == "sched":
         names = part[1]
         run_schedules(names, b["preemptions_line"], None, acc, "line")
